@@ -766,6 +766,20 @@ class Interp:
     def assign(self, target, v, frame):
         if isinstance(target, ast.Name):
             frame.vars[target.id] = v
+        elif isinstance(target, (ast.Tuple, ast.List)) and any(isinstance(e, ast.Starred) for e in target.elts):
+            # a, *rest, z = v   (concrete-length sequences only)
+            items = self.iter_values(v)
+            if not isinstance(items, list):
+                raise Unsupported('starred unpacking of a symbolic-length sequence')
+            k = next(i for i, e in enumerate(target.elts) if isinstance(e, ast.Starred))
+            after = len(target.elts) - k - 1
+            if len(items) < len(target.elts) - 1:
+                raise PyRaise(ExcVal('ValueError', ('not enough values to unpack',)))
+            for t, x in zip(target.elts[:k], items[:k]):
+                self.assign(t, x, frame)
+            self.assign(target.elts[k].value, list(items[k:len(items) - after]), frame)
+            for t, x in zip(target.elts[k + 1:], items[len(items) - after:]):
+                self.assign(t, x, frame)
         elif isinstance(target, (ast.Tuple, ast.List)):
             vals = self.unpack(v, len(target.elts))
             for t, x in zip(target.elts, vals):
